@@ -1,4 +1,5 @@
 """C12 — substitution fails only with SubstitutionError and is idempotent."""
+from ..common import safe_repr
 from .. import conforms, gen_value, runner, scripted_random as SR, substcorr
 from ..common import d42  # noqa: F401
 from d42 import substitute, validate
@@ -23,14 +24,14 @@ EVIDENCE = dict(
 
 def oracle(ctx, cases):
     for c in cases:
-        ctx.case((repr(c.schema), repr(c.value)), c.tag != "witness")
+        ctx.case((safe_repr(c.schema), safe_repr(c.value)), c.tag != "witness")
         ctx.count("tag:" + c.tag)
-        info = dict(schema=repr(c.schema), value=repr(c.value), tag=c.tag, py_schema=c.schema, py_value=c.value)
+        info = dict(schema=safe_repr(c.schema), value=safe_repr(c.value), tag=c.tag, py_schema=c.schema, py_value=c.value)
         if c.kind == "exc":
             ctx.count("outcome:" + type(c.result).__name__)
             if not isinstance(c.result, SubstitutionError):
                 ctx.violation("substitute raised %s (not SubstitutionError)" % type(c.result).__name__,
-                              exception=repr(c.result), **info)
+                              exception=safe_repr(c.result), **info)
             continue
         ctx.count("outcome:ok")
         r = c.result
@@ -38,7 +39,7 @@ def oracle(ctx, cases):
         if not plain:
             # whatever the value (placeholders included): a schema that was RETURNED is a usable object — printing it,
             # validating against it and generating from it do not trip over its own structure
-            for what, f in (("repr", lambda: repr(r)), ("validate", lambda: [validate(r, p) for p in (None, 1, "a", [], [1], [1, 2, 3], {}, {"a": 1})]),
+            for what, f in (("repr", lambda: safe_repr(r)), ("validate", lambda: [validate(r, p) for p in (None, 1, "a", [], [1], [1, 2, 3], {}, {"a": 1})]),
                             ("fake", lambda: SR.generate(r, SR.make_policy("lo", ctx.rnd)))):
                 try:
                     out = f()
@@ -46,11 +47,11 @@ def oracle(ctx, cases):
                         raise out[0][1]
                 except (AttributeError, TypeError, KeyError, IndexError) as e:
                     try:
-                        rtxt = repr(r)
+                        rtxt = safe_repr(r)
                     except Exception:  # noqa: BLE001
                         rtxt = "<unprintable>"
                     ctx.violation("substitution returned a schema that cannot be used: %s raises %s" % (what, type(e).__name__),
-                                  result=rtxt, exception=repr(e)[:200], **info)
+                                  result=rtxt, exception=safe_repr(e)[:200], **info)
                     break
                 except Exception:  # noqa: BLE001
                     pass
@@ -61,7 +62,7 @@ def oracle(ctx, cases):
                 (k, v), log = SR.generate(r, SR.make_policy(pol, ctx.rnd))
                 if k == "exc":
                     ctx.violation("the result of substitution cannot be generated from (%s)" % type(v).__name__,
-                                  result=repr(r), policy=pol, exception=repr(v), py_result=r, **info)
+                                  result=safe_repr(r), policy=pol, exception=safe_repr(v), py_result=r, **info)
                     break
                 try:
                     rejects = validate(r, v).has_errors()
@@ -69,17 +70,17 @@ def oracle(ctx, cases):
                     ctx.count("validate_raised")
                     rejects = False
                 if rejects:
-                    ctx.violation("the result of substitution rejects what it generates", result=repr(r),
-                                  generated=repr(v), py_result=r, **info)
+                    ctx.violation("the result of substitution rejects what it generates", result=safe_repr(r),
+                                  generated=safe_repr(v), py_result=r, **info)
                     break
             # idempotent
             try:
                 r2 = substitute(r, c.value)
-                if not (r2 == r) or repr(r2) != repr(r):
+                if not (r2 == r) or safe_repr(r2) != safe_repr(r):
                     ctx.violation("substituting the same plain value again gives a different schema",
-                                  first=repr(r), second=repr(r2), **info)
+                                  first=safe_repr(r), second=safe_repr(r2), **info)
             except Exception as e:  # noqa: BLE001
-                ctx.violation("substituting the same plain value again raises " + type(e).__name__, first=repr(r), **info)
+                ctx.violation("substituting the same plain value again raises " + type(e).__name__, first=safe_repr(r), **info)
 
 
 def run(ctx):
@@ -89,7 +90,7 @@ def run(ctx):
         ctx.breakage("translation", "substitutor / from_native extraction failed (d42/utils/_from_native.py or the scalar "
                      "visit_* methods of d42/substitution/_substitutor.py no longer consist of the recognised idioms): " + msg)
     runner.prove(ctx, MODULE, THEOREMS, FILES)
-    cases = substcorr.batch(ctx, ctx.n(90, 700), customs=True) + substcorr.list_form_cases(ctx) + substcorr.open_dict_any_cases(ctx, ctx.n(150, 1500)) + substcorr.untyped_pair_cases(ctx) + substcorr.untyped_edge_cases(ctx) + substcorr.untyped_zoo_cases(ctx) + substcorr.list_ellipsis_position_cases(ctx) + substcorr.relaxed_marker_position_cases(ctx) + substcorr.list_window_cases(ctx) + substcorr.float_precision_cases(ctx) + substcorr.many_errors_cases(ctx) + substcorr.list_partial_dict_cases(ctx)
+    cases = substcorr.batch(ctx, ctx.n(90, 700), customs=True) + substcorr.list_form_cases(ctx) + substcorr.open_dict_any_cases(ctx, ctx.n(150, 1500)) + substcorr.untyped_pair_cases(ctx) + substcorr.untyped_edge_cases(ctx) + substcorr.untyped_zoo_cases(ctx) + substcorr.special_key_subst_cases(ctx) + substcorr.list_ellipsis_position_cases(ctx) + substcorr.relaxed_marker_position_cases(ctx) + substcorr.list_window_cases(ctx) + substcorr.float_precision_cases(ctx) + substcorr.many_errors_cases(ctx) + substcorr.list_partial_dict_cases(ctx)
     for c in cases:
         substcorr.run_real(c)
     ctx.count("skipped_unencodable", sum(1 for c in cases if c.skip))
@@ -99,7 +100,7 @@ def run(ctx):
     dis = substcorr.compare(cases, ctx)
     for c, detail in dis[:10]:
         ctx.breakage("correspondence", "substitution outcome differs between model and code",
-                     schema=repr(c.schema), value=repr(c.value), detail=detail, request=c.req)
+                     schema=safe_repr(c.schema), value=safe_repr(c.value), detail=detail, request=c.req)
     ctx.cov["corr_disagreements"] = len(dis)
     if not ctx.quick():
         # thorough: the whole small scope of substitutions (every schema of a small grammar to depth 2 x plain, partial and
@@ -107,8 +108,8 @@ def run(ctx):
         from .. import smallscope
         smallscope.subst_scope(ctx, oracle=oracle)
     for c in cases[:200:40]:
-        ctx.sample({"schema": repr(c.schema), "value": repr(c.value), "tag": c.tag,
-                    "outcome": repr(c.result)[:300]})
+        ctx.sample({"schema": safe_repr(c.schema), "value": safe_repr(c.value), "tag": c.tag,
+                    "outcome": safe_repr(c.result)[:300]})
 
 
 def replay(path):
